@@ -10,6 +10,16 @@ pub enum Ty {
     Func(Vec<(String, String)>, Option<String>),
     /// instance with exports
     Inst(Vec<(String, Ty)>),
+    /// an item whose type the model treats as a black box: (kind, canonical type text from
+    /// the reference validator). Equal text => compatible; otherwise the model is silent.
+    Opaque(String, String),
+}
+
+#[derive(Clone, Copy, Debug, PartialEq, Eq)]
+pub enum Tri {
+    Yes,
+    No,
+    Unknown,
 }
 
 impl Ty {
@@ -37,18 +47,62 @@ impl Ty {
     /// Component-model subtyping for resource-free functions and instances: functions must be
     /// equal; an instance may offer more exports, each common export covariantly.
     pub fn is_subtype_of(&self, other: &Ty) -> bool {
-        match (self, other) {
-            (Ty::Func(..), Ty::Func(..)) => self == other,
-            (Ty::Inst(a), Ty::Inst(b)) => b.iter().all(|(n, tb)| {
-                a.iter().find(|(m, _)| m == n).map_or(false, |(_, ta)| ta.is_subtype_of(tb))
-            }),
-            _ => false,
+        self.subtype(other) == Tri::Yes
+    }
+    pub fn has_opaque(&self) -> bool {
+        match self {
+            Ty::Opaque(..) => true,
+            Ty::Func(..) => false,
+            Ty::Inst(e) => e.iter().any(|(_, t)| t.has_opaque()),
         }
     }
-    pub fn kind_str(&self) -> &'static str {
+    pub fn subtype(&self, other: &Ty) -> Tri {
+        match (self, other) {
+            (Ty::Func(..), Ty::Func(..)) => {
+                if self == other {
+                    Tri::Yes
+                } else {
+                    Tri::No
+                }
+            }
+            (Ty::Inst(a), Ty::Inst(b)) => {
+                let mut r = Tri::Yes;
+                for (n, tb) in b {
+                    match a.iter().find(|(m, _)| m == n) {
+                        None => return Tri::No,
+                        Some((_, ta)) => match ta.subtype(tb) {
+                            Tri::No => return Tri::No,
+                            Tri::Unknown => r = Tri::Unknown,
+                            Tri::Yes => {}
+                        },
+                    }
+                }
+                r
+            }
+            (Ty::Opaque(ka, ca), Ty::Opaque(kb, cb)) => {
+                if ka != kb {
+                    Tri::No
+                } else if ca == cb && !ca.starts_with('~') && !(ca.contains("resource res") || ca.contains("own<res") || ca.contains("borrow<res")) {
+                    Tri::Yes
+                } else {
+                    Tri::Unknown
+                }
+            }
+            (Ty::Opaque(k, _), other) | (other, Ty::Opaque(k, _)) => {
+                if k == other.kind_str() {
+                    Tri::Unknown
+                } else {
+                    Tri::No
+                }
+            }
+            _ => Tri::No,
+        }
+    }
+    pub fn kind_str(&self) -> &str {
         match self {
             Ty::Func(..) => "func",
             Ty::Inst(_) => "instance",
+            Ty::Opaque(k, _) => k,
         }
     }
     fn wat_type(&self) -> String {
@@ -72,6 +126,7 @@ impl Ty {
                 s.push(')');
                 s
             }
+            Ty::Opaque(..) => panic!("opaque types have no WAT form"),
         }
     }
 }
@@ -92,15 +147,102 @@ pub struct PkgSpec {
     pub version: Option<String>,
     pub imports: Vec<(String, Ty)>,
     pub exports: Vec<(String, Ty)>,
+    /// component bytes when the package was not generated from the description
+    pub bytes: Option<Vec<u8>>,
 }
 
 impl PkgSpec {
+    /// Describes an existing component through the reference validator's view of it.
+    pub fn from_component(name: &str, version: Option<&str>, bytes: Vec<u8>) -> PkgSpec {
+        use mc_core::e2::{canon_entity, Canon};
+        use wasmparser::component_types::ComponentEntityType;
+        let types = wasmparser::Validator::new_with_features(wasmparser::WasmFeatures::all())
+            .validate_all(&bytes)
+            .unwrap_or_else(|e| panic!("library component {name} is invalid: {e}"));
+        let tr = types.as_ref();
+        fn conv(tr: wasmparser::types::TypesRef<'_>, e: &ComponentEntityType) -> Ty {
+            match e {
+                ComponentEntityType::Instance(i) => {
+                    let t = tr.get(*i).unwrap();
+                    if t.exports.values().any(|e| matches!(e, ComponentEntityType::Type { .. })) {
+                        // instances exporting types: nested items keep their names, the type
+                        // identity is only known as text
+                        let canon = canon_entity(tr, e);
+                        let _ = Canon::new(tr);
+                        Ty::Inst(
+                            t.exports
+                                .iter()
+                                .map(|(n, x)| {
+                                    (
+                                        n.clone(),
+                                        match x {
+                                            ComponentEntityType::Instance(_) => conv(tr, x),
+                                            _ => Ty::Opaque(kind_name(x).into(), format!("~{canon}#{n}")),
+                                        },
+                                    )
+                                })
+                                .collect(),
+                        )
+                    } else {
+                        Ty::Inst(t.exports.iter().map(|(n, x)| (n.clone(), conv(tr, x))).collect())
+                    }
+                }
+                other => Ty::Opaque(kind_name(other).into(), canon_entity(tr, other)),
+            }
+        }
+        fn kind_name(e: &ComponentEntityType) -> &'static str {
+            match e {
+                ComponentEntityType::Module(_) => "module",
+                ComponentEntityType::Func(_) => "func",
+                ComponentEntityType::Value(_) => "value",
+                ComponentEntityType::Type { .. } => "type",
+                ComponentEntityType::Instance(_) => "instance",
+                ComponentEntityType::Component(_) => "component",
+            }
+        }
+        let mut imports = Vec::new();
+        let mut exports = Vec::new();
+        for payload in wasmparser::Parser::new(0).parse_all(&bytes) {
+            match payload.unwrap() {
+                wasmparser::Payload::ComponentImportSection(s) => {
+                    for i in s {
+                        let n = i.unwrap().name.0.to_string();
+                        if let Some(e) = tr.component_entity_type_of_import(&n) {
+                            imports.push((n, conv(tr, &e)));
+                        }
+                    }
+                }
+                wasmparser::Payload::ComponentExportSection(s) => {
+                    for x in s {
+                        let n = x.unwrap().name.0.to_string();
+                        if let Some(e) = tr.component_entity_type_of_export(&n) {
+                            if !exports.iter().any(|(m, _): &(String, Ty)| *m == n) {
+                                exports.push((n, conv(tr, &e)));
+                            }
+                        }
+                    }
+                }
+                _ => {}
+            }
+        }
+        // parse_all descends into nested components: keep only top-level names
+        let top_i: Vec<String> = top_level_names(&bytes, true);
+        let top_e: Vec<String> = top_level_names(&bytes, false);
+        imports.retain(|(n, _)| top_i.contains(n));
+        exports.retain(|(n, _)| top_e.contains(n));
+        imports.sort_by_key(|(n, _)| top_i.iter().position(|m| m == n));
+        exports.sort_by_key(|(n, _)| top_e.iter().position(|m| m == n));
+        imports.dedup_by(|a, b| a.0 == b.0);
+        PkgSpec { name: name.to_string(), version: version.map(|s| s.to_string()), imports, exports, bytes: Some(bytes) }
+    }
+
     pub fn new(name: &str, version: Option<&str>, imports: &[(&str, Ty)], exports: &[(&str, Ty)]) -> PkgSpec {
         PkgSpec {
             name: name.to_string(),
             version: version.map(|s| s.to_string()),
             imports: imports.iter().map(|(n, t)| (n.to_string(), t.clone())).collect(),
             exports: exports.iter().map(|(n, t)| (n.to_string(), t.clone())).collect(),
+            bytes: None,
         }
     }
 
@@ -166,6 +308,7 @@ impl PkgSpec {
                     writeln!(defs, "  (instance $i{id} {})", items.join(" ")).unwrap();
                     format!("(instance $i{id})")
                 }
+                Ty::Opaque(..) => panic!("opaque types cannot be generated"),
             }
         }
 
@@ -188,6 +331,9 @@ impl PkgSpec {
     }
 
     pub fn to_bytes(&self) -> Vec<u8> {
+        if let Some(b) = &self.bytes {
+            return b.clone();
+        }
         let wat = self.to_wat();
         let bytes = wat::parse_str(&wat).unwrap_or_else(|e| panic!("library WAT does not parse: {e}\n{wat}"));
         wasmparser::Validator::new_with_features(wasmparser::WasmFeatures::all())
@@ -195,4 +341,28 @@ impl PkgSpec {
             .unwrap_or_else(|e| panic!("library component is invalid: {e}\n{wat}"));
         bytes
     }
+}
+
+/// Names of the top-level imports / exports of a component, in order.
+pub fn top_level_names(bytes: &[u8], imports: bool) -> Vec<String> {
+    let mut depth = 0usize;
+    let mut out = Vec::new();
+    for payload in wasmparser::Parser::new(0).parse_all(bytes) {
+        match payload.unwrap() {
+            wasmparser::Payload::Version { .. } => depth += 1,
+            wasmparser::Payload::End(_) => depth -= 1,
+            wasmparser::Payload::ComponentImportSection(s) if depth == 1 && imports => {
+                for i in s {
+                    out.push(i.unwrap().name.0.to_string());
+                }
+            }
+            wasmparser::Payload::ComponentExportSection(s) if depth == 1 && !imports => {
+                for x in s {
+                    out.push(x.unwrap().name.0.to_string());
+                }
+            }
+            _ => {}
+        }
+    }
+    out
 }
